@@ -2,7 +2,7 @@
 
 use super::fail;
 use crate::corpus;
-use crate::explore::Caps;
+use crate::explore::{Caps, Ctx};
 use crate::feat::FCase;
 use crate::ir::{analyse, OutIR, TraitK};
 use crate::report::{Failure, Report};
@@ -85,6 +85,13 @@ pub fn check_input(prop: &str, space: &str, choices: &[u32], input: String, ctag
                 }
                 if tk.fallible() && n_err == 1 {
                     let et = &i.assoc_types.iter().find(|a| a.0 == "Error").unwrap().1;
+                    // (cases that say which error type they declared: it is THE error type of every fallible impl)
+                    if let Some(decl) = ctags.iter().find_map(|t| t.strip_prefix("declared-error=")) {
+                        let want = crate::xp::atoms_of_str(decl).map(|a| a.join(" ")).unwrap_or_default();
+                        if *et != want {
+                            problems.push(("bad-shape".into(), format!("{:?}: `type Error = {}` but the instruction declares `{}`", tk, et, want)));
+                        }
+                    }
                     if !m.output.ends_with(&format!(", {} >", et)) {
                         problems.push(("bad-shape".into(), format!("{:?}: Result error type differs from `type Error = {}`: {}", tk, et, m.output)));
                     }
@@ -104,9 +111,44 @@ pub fn check_input(prop: &str, space: &str, choices: &[u32], input: String, ctag
     let _ = prop;
 }
 
+/// fallible instructions on hosts whose counterpart is of the other kind (tuple struct / tuple variant `as {}`, named
+/// variant `as ()`): the member names come from fallible member instructions only, or from infallible ones, or from
+/// both; every fallible trait-instruction name x error type forms (plain, generic, qualified generic, boxed trait
+/// object) - seeds C17-08 (error type printed without its arguments) and C17-09 (pattern named from infallible
+/// instructions only)
+pub fn gen_fallible_forms(ctx: &mut Ctx) -> Option<(String, Vec<String>)> {
+    const ERR: [&str; 4] = ["Er", "Er<i32>", "m::Er<i32>", "Box<dyn std::error::Error>"];
+    const NAMES: [&str; 9] = ["try_map", "try_from", "try_into", "try_map_owned", "try_map_ref", "try_from_ref", "ref_try_into", "try_into_existing", "ref_try_into_existing"];
+    let host = ctx.choose(3); // tuple struct as {} | enum tuple variant as {} | enum named variant as ()
+    let name = NAMES[ctx.choose(NAMES.len())];
+    if host != 0 && name.contains("into_existing") {
+        return ctx.reject(); // KF-C16-01
+    }
+    let er = ERR[ctx.choose(ERR.len())];
+    // how each of the two members is named: fallible instruction only | infallible only | an expression with the name
+    let mut members = vec![];
+    let mut mtags = vec![];
+    for k in 0..2 {
+        let target = if host == 2 { k.to_string() } else { format!("n{}", k) };
+        let m = match ctx.choose(3) {
+            0 => { mtags.push("fallible-name"); format!("#[try_map({})]", target) }
+            1 => { mtags.push("infallible-name"); format!("#[map({})]", target) }
+            _ => { mtags.push("fallible-name+expr"); format!("#[try_map({}, ~.clone())]", target) }
+        };
+        members.push(m);
+    }
+    let src = match host {
+        0 => format!("#[{}(T as {{}}, {})]\nstruct S({} i32, {} i32);\n", name, er, members[0], members[1]),
+        1 => format!("#[{}(T, {})]\nenum S {{ #[type_hint(as {{}})] V({} i32, {} i32), B }}\n", name, er, members[0], members[1]),
+        _ => format!("#[{}(T, {})]\nenum S {{ #[type_hint(as ())] V {{ {} x: i32, {} y: i32 }}, B }}\n", name, er, members[0], members[1]),
+    };
+    let tags = vec![format!("host={}", ["tuple-struct-as-named", "tuple-variant-as-named", "named-variant-as-tuple"][host]), format!("name={}", name), format!("declared-error={}", er), format!("m0={}", mtags[0]), format!("m1={}", mtags[1])];
+    Some((src, tags))
+}
+
 pub fn run(tier: &str) -> i32 {
     let rep = Report::new("C17", tier, "exploration");
-    rep.set_rule("every input of the host corpus (semantic struct cases; feature-interaction product for structs: shape x hint x 8 kind presets x 1-2 counterparts x 13-entry member menu incl. child/parent/repeat/as_type x ghosts x trait-instruction params vars/update/return/attributes x where_clause; for enums: variant shape x 9-entry variant menu x enum ghosts x default case; enum->primitive literal/pattern hosts) is expanded; for every ACCEPTED input the output must parse as a Rust file (syn 2 full) of impl items only, each of one of the six traits (path read structurally), with exactly one fn of the documented name and signature and `type Error` iff fallible. states = distinct inputs; non-trivial = accepted inputs");
+    rep.set_rule("every input of the host corpus (semantic struct cases; feature-interaction product for structs: shape x hint x 8 kind presets x 1-2 counterparts x 13-entry member menu incl. child/parent/repeat/as_type x ghosts x trait-instruction params vars/update/return/attributes x where_clause; for enums: variant shape x 9-entry variant menu x enum ghosts x default case; enum->primitive literal/pattern hosts) is expanded; for every ACCEPTED input the output must parse as a Rust file (syn 2 full) of impl items only, each of one of the six traits (path read structurally), with exactly one fn of the documented name and signature and `type Error` iff fallible; `fallible-forms`: 9 fallible instruction names x 4 error type forms x hosts mapped to the other kind (tuple struct / tuple variant `as {}`, named variant `as ()`) x members named by fallible and / or infallible instructions - `type Error` must be the declared type. states = distinct inputs; non-trivial = accepted inputs");
     rep.assume("embedded expressions, types and patterns of the corpus are well-formed by construction; `parses` is judged by syn 2 (rustc judges the B-engine properties)");
     let caps = Caps::from_env(if tier == "quick" { 120.0 } else { 1200.0 });
     corpus::for_each(if tier == "quick" { "quick" } else { "mid" }, &caps, &rep, |space, choices, c| check_case("C17", space, choices, &c, &rep));
@@ -125,13 +167,15 @@ pub fn run(tier: &str) -> i32 {
         |choices, (src, tags)| check_input("C17", "token-forms", choices, src, &tags, &rep),
     );
     rep.add_stats("token-forms", "full", &st);
+    let st = crate::explore::explore(gen_fallible_forms, None, &caps, |choices, (src, tags)| check_input("C17", "fallible-forms", choices, src, &tags, &rep));
+    rep.add_stats("fallible-forms", "full", &st);
     rep.finish()
 }
 
 pub fn replay(f: &Failure) -> i32 {
-    if f.space == "token-forms" {
+    if f.space == "token-forms" || f.space == "fallible-forms" {
         let rep = Report::new("C17", "quick", "exploration");
-        check_input("C17", "token-forms", &f.choices, f.input.clone(), &f.tags, &rep);
+        check_input("C17", &f.space, &f.choices, f.input.clone(), &f.tags, &rep);
         let fs = rep.failures.lock().unwrap();
         for x in fs.iter() {
             println!("REPLAYED property=C17 kind={} detail={}", x.kind, x.detail);
